@@ -31,6 +31,22 @@ def init_order_once(ctx):
     cfg = CFG(f.node, m, f.module)
     early = [i for c in calls_in(f.node) if call_attr(c) == 'earlyInit' for i in cfg.node_of(c)]
     init = [i for c in calls_in(f.node) if call_attr(c) == 'initModule' for i in cfg.node_of(c)]
+    initcalls = [c for c in calls_in(f.node) if call_attr(c) in ('earlyInit', 'initModule')]
+    table_order = None
+    if not early and not init:
+        # table driven form: `for step, flag in (('earlyInit', ...), ('initModule', ...)): getattr(modobj, step)()`
+        for loop in [x for x in body_walk(f.node) if isinstance(x, ast.For) and isinstance(x.iter, (ast.Tuple, ast.List))]:
+            firsts = [e for el in loop.iter.elts for e in (el.elts[:1] if isinstance(el, (ast.Tuple, ast.List)) else [el])]
+            names = [e.value if isinstance(e, ast.Constant) else e.attr for e in firsts
+                     if (isinstance(e, ast.Constant) and isinstance(e.value, str)) or isinstance(e, ast.Attribute)]
+            var = loop.target.id if isinstance(loop.target, ast.Name) else (loop.target.elts[0].id if isinstance(loop.target, ast.Tuple) and isinstance(loop.target.elts[0], ast.Name) else None)
+            gcalls = [c for c in calls_in(loop) if ((isinstance(c.func, ast.Call) and dotted(c.func.func) == 'getattr' and len(c.func.args) == 2 and src(c.func.args[1]) == var)
+                                                    or (isinstance(c.func, ast.Name) and c.func.id == var and not c.args))
+                      and not any(isinstance(a, ast.If) and any(a is x for x in ast.walk(loop)) for a in ancestors(c))]
+            if 'earlyInit' in names and 'initModule' in names and gcalls:
+                table_order = names
+                early = init = [i for c in gcalls for i in cfg.node_of(c)]
+                initcalls = gcalls
     if not early or not init:
         raise AnchorMissing('earlyInit / initModule calls not found in SecNode.get_module', violation='frappy.secnode.SecNode.get_module:earlyInit and initModule are called')
     tests = [t for t in cfg.nodes if t.kind == 'test' and src(t.ast).replace('not ', '').endswith('._isinitialized')]
@@ -43,16 +59,19 @@ def init_order_once(ctx):
             ok = True
     ctx.check(ok, f'{f.qualname}:initialised module returned at once', f.node, '`if modobj._isinitialized: return` dominates the init calls',
               'an already initialised module is initialised again (earlyInit/initModule not exactly once)', f)
-    ctx.check(all(cfg.dominates(early, i) for i in init) and not any(cfg.reachable(i, e) for i in init for e in early),
-              f'{f.qualname}:earlyInit before initModule', f.node, 'earlyInit dominates initModule',
-              'initModule can run before earlyInit', f)
+    if table_order is not None:
+        ctx.check(table_order.index('earlyInit') < table_order.index('initModule'), f'{f.qualname}:earlyInit before initModule', f.node,
+                  f'the steps are run in the order {table_order}', 'initModule is listed before earlyInit', f)
+    else:
+        ctx.check(all(cfg.dominates(early, i) for i in init) and not any(cfg.reachable(i, e) for i in init for e in early),
+                  f'{f.qualname}:earlyInit before initModule', f.node, 'earlyInit dominates initModule',
+                  'initModule can run before earlyInit', f)
     marks = [i for t, v, s in attr_stores(f.node) if t.attr == '_isinitialized' and isinstance(v, ast.Constant) and v.value is True for i in cfg.node_of(s)]
     ok = bool(marks) and cfg.all_paths_pass(early, [cfg.exit], marks, exc=True)
     ctx.check(ok, f'{f.qualname}:initialised mark set on every path', f.node, 'every path from earlyInit to the return sets _isinitialized',
               'a path (e.g. a failing initModule) leaves the module unmarked: it is initialised again on the next access', f)
     from sa.lib import contained_by_catch_all, handler_reraises
-    t_ok = all(contained_by_catch_all(c)[0] is not None and not handler_reraises(contained_by_catch_all(c)[1])
-               for c in calls_in(f.node) if call_attr(c) in ('earlyInit', 'initModule'))
+    t_ok = all(contained_by_catch_all(c)[0] is not None and not handler_reraises(contained_by_catch_all(c)[1]) for c in initcalls)
     ctx.check(t_ok, f'{f.qualname}:init errors collected', f.node, 'init calls inside try/except Exception appending to errors',
               'an exception in earlyInit/initModule is not collected as a node error', f)
     for h in [x for x in body_walk(f.node) if isinstance(x, ast.ExceptHandler)]:
